@@ -11,7 +11,8 @@ COQ_IMPORTS = ['Base.Str', 'Base.Value', 'Base.Regex', 'Proc.RowOps', 'Proc.Fiel
 RULE = ('cases = generated tables (0-6 rows; field names incl. regex metacharacters and names that are prefixes of each '
         'other) x one of select/delete/rename/add_field/add_computed_field/find_replace with generated patterns '
         '(regex on/off), operations (constant,sum,avg,min,max,multiply,join,format,callable) with nulls; non-trivial = '
-        'the step changes schema or rows, or raises; distinct = distinct case digest')
+        'the step changes schema or rows, or raises; distinct = distinct case digest'
+        '; round 4: find_replace templates with \\g<n>, \\g<name> and escapes; rename specifications whose earlier target is matched by a later entry')
 TRUSTED = ['Coq 8.16.1 kernel + vm_compute', 'harness/p15.py printers and oracle',
            'Python re decides which names a field pattern fully matches and computes substitutions (tables handed to the model)',
            'avg over integers is compared only where the quotient is an exact small dyadic rational (float printed exactly)']
